@@ -42,6 +42,7 @@ type Ctx struct {
 	fresh  int
 	funcs  map[string]string // uninterpreted function declarations: name -> "(args) ret"
 	forder []string
+	liftDepth int
 }
 
 func NewCtx(bv bool) *Ctx {
@@ -111,6 +112,33 @@ func (c *Ctx) Const(name string, sort Sort) *Term {
 func (c *Ctx) Fresh(prefix string, sort Sort) *Term {
 	c.fresh++
 	return c.Const(fmt.Sprintf("%s!%d", sanitize(prefix), c.fresh), sort)
+}
+
+// dependsOnFreshSince: does t mention a Fresh constant created after the given counter value?
+func (c *Ctx) dependsOnFreshSince(t *Term, mark int) bool {
+	seen := map[*Term]bool{}
+	var visit func(t *Term) bool
+	visit = func(t *Term) bool {
+		if seen[t] {
+			return false
+		}
+		seen[t] = true
+		if t.leaf {
+			if i := strings.LastIndex(t.op, "!"); i >= 0 && t.decl {
+				var n int
+				fmt.Sscan(t.op[i+1:], &n)
+				return n > mark
+			}
+			return false
+		}
+		for _, a := range t.args {
+			if visit(a) {
+				return true
+			}
+		}
+		return false
+	}
+	return visit(t)
 }
 
 func (c *Ctx) BoundVar(name string, sort Sort) *Term {
@@ -349,6 +377,24 @@ func (c *Ctx) Add(a, b *Term) *Term {
 	if y, ok := c.litVal(b); ok && y.Sign() == 0 {
 		return a
 	}
+	if !c.bv {
+		// push a literal addend into an if-then-else: ite(c,a,b) + k == ite(c, a+k, b+k)
+		if _, ok := c.litVal(b); ok && a.op == "ite" && !a.leaf && len(a.args) == 3 {
+			return c.Ite(a.args[0], c.Add(a.args[1], b), c.Add(a.args[2], b))
+		}
+		// keep sums in the form (x + literal): (x + c1) + c2 == x + (c1+c2)
+		if x, ok := c.litVal(a); ok {
+			if _, ok2 := c.litVal(b); !ok2 {
+				a, b = b, a
+				_ = x
+			}
+		}
+		if y, ok := c.litVal(b); ok && a.op == "+" && len(a.args) == 2 {
+			if z, ok := c.litVal(a.args[1]); ok {
+				return c.Add(a.args[0], c.IntBig(new(big.Int).Add(y, z)))
+			}
+		}
+	}
 	return c.intop("+", "bvadd", a, b)
 }
 func (c *Ctx) Sub(a, b *Term) *Term {
@@ -359,6 +405,14 @@ func (c *Ctx) Sub(a, b *Term) *Term {
 	}
 	if y, ok := c.litVal(b); ok && y.Sign() == 0 {
 		return a
+	}
+	if !c.bv {
+		if y, ok := c.litVal(b); ok {
+			return c.Add(a, c.IntBig(new(big.Int).Neg(y)))
+		}
+		if a == b {
+			return c.Int(0)
+		}
 	}
 	return c.intop("-", "bvsub", a, b)
 }
@@ -511,6 +565,10 @@ func (c *Ctx) Select(a, i *Term) *Term {
 			}
 		}
 	}
+	if a.op == "ite" && len(a.args) == 3 && !a.leaf {
+		// lift the ite out of the array: select(ite(c,A,B),i) = ite(c, select(A,i), select(B,i))
+		return c.Ite(a.args[0], c.Select(a.args[1], i), c.Select(a.args[2], i))
+	}
 	return c.mk("select", elemSort(a.sort), a, i)
 }
 func (c *Ctx) Store(a, i, v *Term) *Term {
@@ -563,6 +621,34 @@ func (c *Ctx) App(name string, ret Sort, args ...*Term) *Term {
 	if len(args) == 0 {
 		return c.Const(name, ret)
 	}
+	// lift a common if-then-else out of the arguments: f(ite(c,a,b), ite(c,x,y)) = ite(c, f(a,x), f(b,y))
+	if strings.HasPrefix(name, "spec_") {
+		var cond *Term
+		ok := true
+		for _, a := range args {
+			if a.op == "ite" && !a.leaf && len(a.args) == 3 {
+				if cond == nil {
+					cond = a.args[0]
+				} else if cond != a.args[0] {
+					ok = false
+				}
+			}
+		}
+		if cond != nil && ok && c.liftDepth < 6 {
+			t, e := make([]*Term, len(args)), make([]*Term, len(args))
+			for i, a := range args {
+				if a.op == "ite" && !a.leaf && len(a.args) == 3 {
+					t[i], e[i] = a.args[1], a.args[2]
+				} else {
+					t[i], e[i] = a, a
+				}
+			}
+			c.liftDepth++
+			r := c.Ite(cond, c.App(name, ret, t...), c.App(name, ret, e...))
+			c.liftDepth--
+			return r
+		}
+	}
 	return c.mk(name, ret, args...)
 }
 
@@ -594,8 +680,8 @@ func (c *Ctx) Forall(vars []*Term, body *Term, pats [][]*Term) *Term {
 	return q
 }
 
-func (c *Ctx) Exists(vars []*Term, body *Term) *Term {
-	return c.Not(c.Forall(vars, c.Not(body), nil))
+func (c *Ctx) Exists(vars []*Term, body *Term, pats [][]*Term) *Term {
+	return c.Not(c.Forall(vars, c.Not(body), pats))
 }
 
 var qpats = map[*Term][][]*Term{}
